@@ -581,7 +581,7 @@ func execC25(r *Run) {
 // steps: {op:"edit", x: (unused), ps in T: "k=v;k=v|delk;delk"} ; {op:"restart"}
 func genC30(seed uint64, tier string) *Case {
 	g := NewRng(seed)
-	c := &Case{P: map[string]int64{"file": 1}}
+	c := &Case{P: map[string]int64{"file": 1, "peer": int64(g.Pick(0, 0, 1))}}
 	keys := []string{"role", "dc", "ünï", "big", "x"}
 	n := 3 + g.Intn(12)
 	for i := 0; i < n; i++ {
@@ -610,7 +610,7 @@ func execC30(r *Run) {
 	}
 	defer os.RemoveAll(dir)
 	file := filepath.Join(dir, "tags.json")
-	c := NewCluster(r, 1)
+	c := NewCluster(r, 2)
 	defer c.StopAll()
 	as, err := startAgent(r, c, "", &agent.Config{TagsFile: file}, NodeOpts{})
 	if err != nil {
@@ -618,6 +618,20 @@ func execC30(r *Run) {
 		return
 	}
 	defer as.stop()
+	// with a live peer every tag edit has to be announced; memberlist is passive here, so
+	// the announcement is never transmitted and the wait for it times out
+	peer := r.C.P["peer"] == 1
+	if peer {
+		if err := c.Start(1, NodeOpts{}); err != nil {
+			r.Fail("setup", "setup", "%v", err)
+			return
+		}
+		a := c.Go("join", func() (int, error) { return c.Nodes[1].S.Join([]string{c.JoinAddr(0)}, false) })
+		if !a.done || a.err != nil {
+			r.Fail("setup", "setup", "join: %v", a.err)
+			return
+		}
+	}
 	cl := as.connect()
 	cursor := 0
 	seq := uint64(1)
@@ -661,6 +675,9 @@ func execC30(r *Run) {
 		}
 		seq++
 		cl.send("tags", seq, map[string]any{"Tags": sets, "DeleteTags": dels})
+		if peer {
+			c.Advance(7 * time.Second) // the wait for the update broadcast (5 s) runs out
+		}
 		recs := cl.take(&cursor)
 		errStr := "no-reply"
 		for _, rec := range recs {
@@ -689,7 +706,12 @@ func execC30(r *Run) {
 			model = want
 		} else {
 			r.Fault("edit-rejected")
-			if tagString(live) != tagString(model) {
+			if peer && tagString(live) == tagString(want) {
+				// the edit took effect but its announcement to the peer timed out (nothing
+				// gossips here): reported as an error, yet these are the tags in effect now
+				r.Fault("edit-applied-but-announcement-timed-out")
+				model = want
+			} else if tagString(live) != tagString(model) {
 				r.Fail("rejected-edit-changed-tags", "C30 rejected-changed", "edit was rejected (%s) but the tags in effect changed {%s} -> {%s}", errStr, tagString(model), tagString(live))
 				return
 			}
